@@ -48,8 +48,6 @@ const (
 	defaultRep = "<%0|%1|%%>"
 )
 
-var apis = []string{"find", "plain", "match", "gmatch", "gsub-s", "gsub-n", "gsub-t", "gsub-f"}
-
 // ---------------------------------------------------------------------------
 // replacement rule shared by the table and the function replacement (the Lua
 // side implements the same rule in tval)
@@ -974,12 +972,6 @@ var subjects, subjEnd = func() ([]string, [6]int) {
 	}
 	return out, ends
 }()
-
-type entryMeta struct {
-	subj int
-	init int64
-	api  int
-}
 
 // batchLua runs pattern pp against the subjects selected by mask through the
 // batch helper and compares every entry.
